@@ -25,7 +25,7 @@ func init() {
 			"(c) trace monitor: user function v:probe(tag, position(), last()) spliced before and after a predicate records (tag, context node identity, Context.ContextPosition(), position(), last()) and the multiset of events must equal the one the model's own probe records (per-context-node numbering in axis direction, renumbering of survivors), plus ContextPosition()+1 == position(); " +
 			"(e) attribute- and namespace-axis steps carrying position-independent predicates (self::name / self::* / ../self::e / ancestor::e/self::e / not() / count() / string comparisons / and-or combinations), also as the predicate of an element step; (f) once per run a parent with 70 000 children (thorough: also 2^17+5): [k], [position()=k], [last()], (E)[position()=last()], last()-k, position() mod 65536, sibling axes from both ends, against the model; (d) library-only identities P[n]==P[position()=n], P[last()]==P[position()=last()], P[true()]==P, P[1.5]/P[0]/P[-1]/P[0 div 0]/P[1 div 0] empty. distinct_nontrivial = distinct (document shape, expression) whose expected result is a non-empty proper subset of the document or whose probe trace has >= 2 events",
 		Assumptions: []string{"predicates on '.' and '..' are not in the grammar and not generated", "positional predicates directly on the attribute and namespace axes are not generated (order within an element is implementation-dependent)"},
-		NCases:      func(tier string) int { return map[string]int{"quick": 900, "thorough": 20000}[tier] },
+		NCases:      func(tier string) int { return map[string]int{"quick": 900, "thorough": 12000}[tier] },
 		Case:        c02Case,
 		Post:        c02Big,
 	})
